@@ -333,6 +333,9 @@ func r15bIn(c *RuleCtx, props []string, fn *ssa.Function, file ssa.Value, acqPos
 					if callee != nil && c.p.InZap(callee) && callee.Parent() == nil && len(callee.Blocks) > 0 && ai < len(callee.Params) && fileOnlyReleased(callee.Params[ai]) {
 						continue // a cleanup helper: closes (syncs) the file and nothing else
 					}
+					if callee != nil && c.p.InZap(callee) && callee.Parent() == nil && len(callee.Blocks) > 0 && ai < len(callee.Params) && ownerOnlyReleased(c.p, callee, callee.Params[ai], 0) {
+						continue // a method of the file's owner that finishes or discards the file and writes nothing
+					}
 					if callee != nil && bufioWrapper(c.p, callee) == ai {
 						// a constructor of the buffered writer (`getMergeWriter(f)`): like bufio.NewWriterSize
 						bufw, _ = cs.(*ssa.Call)
@@ -1115,6 +1118,26 @@ func r18VectorAddress(c *RuleCtx) {
 				}
 			}
 			usesCount = true
+			if !okc && fn != merge {
+				// the guard may sit in the callers (a writer shared with the build path, where a field always
+				// has vectors): every call on the merge path is made with the table known to be non-empty
+				nc, guarded := 0, true
+				for _, cs := range p.callersOf(fn) {
+					if !reach[cs.Parent()] && cs.Parent() != merge {
+						continue
+					}
+					nc++
+					cpa := analyse(cs.Parent())
+					for _, ev := range cpa.statesBefore(cs) {
+						if ev&evNonEmpty == 0 {
+							guarded = false
+						}
+					}
+				}
+				if nc > 0 && guarded {
+					okc = true
+				}
+			}
 			c.add(statusOf(okc), "vector/no-address-when-nothing-survives", c.pos(mu), "the merged vector section address is recorded only when at least one vector survived (non-empty id->doc table, or bytes were written for the section)",
 				"the section address is recorded although no vector survived: a field all of whose vectors were deleted would carry a vector index", props, nil)
 		})
@@ -1695,6 +1718,7 @@ func r17MergeFields(c *RuleCtx, mf *ssa.Function) {
 	web := map[*ssa.Phi]bool{}
 	var falseFrom []*ssa.BasicBlock
 	startsTrue := false
+	helperCompared := false
 	var walk func(ph *ssa.Phi)
 	walk = func(ph *ssa.Phi) {
 		if web[ph] {
@@ -1712,6 +1736,18 @@ func r17MergeFields(c *RuleCtx, mf *ssa.Function) {
 			}
 			if p2, ok := e.(*ssa.Phi); ok {
 				walk(p2)
+				continue
+			}
+			// `fieldsSame = fieldsSame && sameFieldList(first, fields)`: the flag takes the answer of a list
+			// comparison where it was still true — a clearing site controlled by that comparison
+			if call, ok := e.(*ssa.Call); ok && len(call.Call.Args) == 2 && isList(call.Call.Args[0], 0) && isList(call.Call.Args[1], 0) && listEqualityHelper(call.Call.StaticCallee()) {
+				pred := ph.Block().Preds[i]
+				for _, d := range controlDeps(mf)[pred] {
+					if c2, ok := branchCond(d.Branch).(*ssa.Phi); ok && (web[c2] || c2 == ph) && d.Branch.Succs[0] == pred {
+						falseFrom = append(falseFrom, pred)
+						helperCompared = true
+					}
+				}
 			}
 		}
 	}
@@ -1719,7 +1755,7 @@ func r17MergeFields(c *RuleCtx, mf *ssa.Function) {
 	c.add2(startsTrue && len(falseFrom) > 0, props, "mergeFields/computed", c.fpos(mf), "mergeFields computes fieldsSame: it starts true and is cleared somewhere", fmt.Sprintf("starts true: %v, cleared at %d places", startsTrue, len(falseFrom)))
 	deps := transitiveControlDeps(mf)
 	var bad []string
-	sawLen, sawElem := false, false
+	sawLen, sawElem := helperCompared, helperCompared
 	// Second form (segments that contribute no document are left out of the comparison): conditions on
 	// the liveness of a segment (its document count, its drops bitmap) may then decide whether a
 	// difference is looked at — provided that the function also clears the flag when the merged set of
@@ -1768,12 +1804,12 @@ func r17MergeFields(c *RuleCtx, mf *ssa.Function) {
 			}
 			bo, ok := cond.(*ssa.BinOp)
 			if !ok {
-				if call, ok := cond.(*ssa.Call); ok && len(call.Call.Args) == 2 && isList(call.Call.Args[0], 0) && isList(call.Call.Args[1], 0) {
+				if call, ok := cond.(*ssa.Call); ok && len(call.Call.Args) == 2 && isList(call.Call.Args[0], 0) && isList(call.Call.Args[1], 0) && listEqualityHelper(call.Call.StaticCallee()) {
 					sawLen, sawElem = true, true
 					continue // an equality helper over both lists
 				}
 				if u, ok := cond.(*ssa.UnOp); ok && u.Op == token.NOT {
-					if call, ok := u.X.(*ssa.Call); ok && len(call.Call.Args) == 2 && isList(call.Call.Args[0], 0) && isList(call.Call.Args[1], 0) {
+					if call, ok := u.X.(*ssa.Call); ok && len(call.Call.Args) == 2 && isList(call.Call.Args[0], 0) && isList(call.Call.Args[1], 0) && listEqualityHelper(call.Call.StaticCallee()) {
 						sawLen, sawElem = true, true
 						continue
 					}
@@ -1951,4 +1987,107 @@ func isWriterInterface(t types.Type) bool {
 // (newDocNums, newDocNumsIn, segNewDocNums …) — not just any list of document numbers (localDocNums).
 func isRenumberingName(n string) bool {
 	return strings.Contains(strings.ToLower(n), "newdocnum")
+}
+
+// listEqualityHelper: f(a, b []T) bool answers true only for lists of the same length that agree in every
+// element — every `return false` is controlled by nothing but the comparison of the two lengths, the
+// comparison of two elements and the loop over them, both comparisons occur, and no other answer than a
+// constant is given. slices.Equal is one.
+func listEqualityHelper(f *ssa.Function) bool {
+	if f == nil {
+		return false
+	}
+	if f.Pkg != nil && f.Pkg.Pkg.Path() == "slices" && f.Name() == "Equal" {
+		return true
+	}
+	if o := f.Origin(); o != nil && o.Pkg != nil && o.Pkg.Pkg.Path() == "slices" && o.Name() == "Equal" {
+		return true
+	}
+	if len(f.Blocks) == 0 || len(f.Params) != 2 {
+		return false
+	}
+	isParam := func(v ssa.Value) bool { return v == ssa.Value(f.Params[0]) || v == ssa.Value(f.Params[1]) }
+	fromParam := func(v ssa.Value) (isLen, ok bool) {
+		switch x := v.(type) {
+		case *ssa.Call:
+			if b, isB := x.Call.Value.(*ssa.Builtin); isB && b.Name() == "len" && isParam(x.Call.Args[0]) {
+				return true, true
+			}
+		case *ssa.UnOp:
+			if x.Op == token.MUL {
+				if ia, isIA := x.X.(*ssa.IndexAddr); isIA && isParam(ia.X) {
+					return false, true
+				}
+			}
+		}
+		return false, false
+	}
+	deps := transitiveControlDeps(f)
+	sawLen, sawElem, sawTrue := false, false, false
+	for _, ret := range returnsOf(f) {
+		if len(ret.Results) != 1 {
+			return false
+		}
+		k, ok := constBool(ret.Results[0])
+		if !ok {
+			return false
+		}
+		if k {
+			sawTrue = true
+			continue
+		}
+		for _, d := range deps[ret.Block()] {
+			bo, ok := branchCond(d.Branch).(*ssa.BinOp)
+			if !ok {
+				return false
+			}
+			if bo.Op == token.LSS {
+				if _, isIdx := rangeIndexOf(bo.X); isIdx {
+					continue
+				}
+			}
+			if bo.Op != token.NEQ && bo.Op != token.EQL {
+				return false
+			}
+			lx, okx := fromParam(bo.X)
+			ly, oky := fromParam(bo.Y)
+			if !okx || !oky || lx != ly {
+				return false
+			}
+			if lx {
+				sawLen = true
+			} else {
+				sawElem = true
+			}
+		}
+	}
+	return sawLen && sawElem && sawTrue
+}
+
+// ownerOnlyReleased: prm is a file owner (owners.go) and f does nothing with its file but Close / Sync it,
+// nothing with its path but remove it, and hands the owner on only to routines of which the same holds.
+func ownerOnlyReleased(p *Program, f *ssa.Function, prm *ssa.Parameter, depth int) bool {
+	if depth > 3 || ownerOfType(p.owners, prm.Type()) == nil {
+		return false
+	}
+	for _, cs := range callSites(f) {
+		g := staticCallee(cs)
+		for ai, a := range cs.Common().Args {
+			if root(a) != ssa.Value(prm) {
+				continue
+			}
+			if g == nil {
+				return false
+			}
+			switch g.String() {
+			case "(*os.File).Close", "(*os.File).Sync", "os.Remove", "(*os.File).Stat", "(*os.File).Name":
+				continue
+			}
+			if p.InZap(g) && g.Parent() == nil && len(g.Blocks) > 0 && ai < len(g.Params) && ownerOnlyReleased(p, g, g.Params[ai], depth+1) {
+				continue
+			}
+			return false
+		}
+	}
+	return true
 }
